@@ -122,3 +122,280 @@ def faultSet (l : Io) (persistent : Bool) : Io → Bool :=
   fun a => if persistent then decide (l.rank ≤ a.rank) else a == l
 
 end Nomt.Api.Pipe
+
+namespace Nomt.Api.Pipe
+open Nomt Nomt.Api
+variable {Node VH : Type} [DecidableEq Node] [DecidableEq VH]
+
+/-! ### every I/O step of a pipeline trace sits at the position `Io.pos` names for its label -/
+
+/-- the work lists hold labels of their own task only -/
+structure WorkWf (W : IoWork) : Prop where
+  seg : ∀ l ∈ W.seg, l.pos = .rbAppend
+  wal : ∀ l ∈ W.wal, l.pos = .preMeta
+  tree : ∀ l ∈ W.tree, l.pos = .preMeta
+  prune : ∀ l ∈ W.prune, l.pos = .postMeta
+  ht : ∀ l ∈ W.ht, l.pos = .postMeta
+
+/-- the work read off ANY label sequence is well formed -/
+theorem workOf_wf (ls : List Io) : WorkWf (workOf ls) := by
+  constructor <;> intro l hl <;> simp only [workOf, List.mem_filter] at hl <;> obtain ⟨_, h⟩ := hl <;>
+    cases l <;> simp_all [Io.pos, Io.task]
+
+theorem default_work_wf : WorkWf {} := by
+  constructor <;> intro l hl <;> simp at hl <;> rcases hl with rfl | rfl | rfl <;> rfl
+
+@[simp] theorem positionsOk_nil : positionsOk [] = true := rfl
+
+theorem positionsOk_append (a b : List Step) : positionsOk (a ++ b) = (positionsOk a && positionsOk b) := by
+  induction a with
+  | nil => simp
+  | cons s a ih =>
+    cases s <;> simp [positionsOk, ih, Bool.and_assoc]
+
+theorem runSeq_positionsOk (F : Io → Bool) (pos : Pos) (l : List Io) (h : ∀ a ∈ l, a.pos = pos) :
+    positionsOk (runSeq F pos l).tr = true := by
+  induction l with
+  | nil => rfl
+  | cons a r ih =>
+    have ha : a.pos = pos := h a (by simp)
+    have hr := ih (fun x hx => h x (by simp [hx]))
+    unfold runSeq
+    by_cases hf : F a = true
+    · simp [hf, positionsOk, ha]
+    · simp [hf, positionsOk, ha, hr]
+
+theorem runAll_positionsOk (F : Io → Bool) (pos : Pos) (l : List Io) (h : ∀ a ∈ l, a.pos = pos) :
+    positionsOk (runAll F pos l).tr = true := by
+  induction l with
+  | nil => rfl
+  | cons a r ih =>
+    have ha : a.pos = pos := h a (by simp)
+    have hr := ih (fun x hx => h x (by simp [hx]))
+    simp only [runAll, List.map_cons, positionsOk] at hr ⊢
+    simp [ha, hr]
+
+end Nomt.Api.Pipe
+
+namespace Nomt.Api.Pipe
+open Nomt Nomt.Api
+variable {Node VH : Type} [DecidableEq Node] [DecidableEq VH]
+
+@[simp] theorem positionsOk_ite_rbTrim (c : Prop) [Decidable c] :
+    positionsOk (if c then [Step.rbTrim] else []) = true := by split <;> rfl
+
+theorem bitboxPostMeta_positionsOk (E : Env) (hW : WorkWf E.W) (p : PSt Node VH) :
+    positionsOk (bitboxPostMeta E p).2.2 = true := by
+  have h := runAll_positionsOk E.F .postMeta E.W.ht hW.ht
+  simp only [bitboxPostMeta]
+  generalize runAll E.F .postMeta E.W.ht = hw at h ⊢
+  cases E.Q.htResultIgnored <;> cases hw.ok <;> cases E.F .htFsync <;> cases E.F .walTruncate <;>
+    simp [positionsOk_append, h, positionsOk, Io.pos]
+
+theorem sync_positionsOk (E : Env) (hW : WorkWf E.W) (trim : Bool) (ws : Writes VH) (p : PSt Node VH) :
+    positionsOk (sync E trim ws p).2.2 = true := by
+  have hbb := runSeq_positionsOk E.F .preMeta (.bucketAlloc :: E.W.wal)
+    (by intro a ha; rcases List.mem_cons.mp ha with rfl | ha
+        · rfl
+        · exact hW.wal a ha)
+  have hup := runSeq_positionsOk E.F .preMeta E.W.tree hW.tree
+  have hpr := runSeq_positionsOk E.F .postMeta E.W.prune hW.prune
+  have htrim : positionsOk (if (p.mem.rollbackOn && trim) = true then [Step.rbTrim] else []) = true := by
+    split <;> rfl
+  unfold sync
+  simp only []
+  generalize hbm : bitboxPostMeta E _ = bm
+  have hb : positionsOk bm.2.2 = true := by rw [← hbm]; exact bitboxPostMeta_positionsOk E hW _
+  generalize runSeq E.F .preMeta (.bucketAlloc :: E.W.wal) = bb at hbb ⊢
+  generalize runSeq E.F .preMeta E.W.tree = up at hup ⊢
+  generalize runSeq E.F .postMeta E.W.prune = pr at hpr ⊢
+  obtain ⟨bbok, bbtr⟩ := bb
+  obtain ⟨upok, uptr⟩ := up
+  obtain ⟨prok, prtr⟩ := pr
+  obtain ⟨bOk, pB, tB⟩ := bm
+  simp only at hbb hup hpr hb
+  by_cases h1 : E.F .bbnFsync = true <;> by_cases h2 : E.F .lnFsync = true <;>
+  by_cases h3 : E.F .metaWrite = true <;> by_cases h4 : E.F .metaFsync = true <;>
+  cases bbok <;> cases upok <;>
+    simp [positionsOk_append, hbb, hup, h1, h2, h3, h4, runSeq, positionsOk, Io.pos] <;>
+    (cases E.Q.fsyncResultsOr <;> (try simp [positionsOk_append, hbb, hup, h1, h2, h3, h4, positionsOk, Io.pos])) <;>
+    (cases p.mem.rollbackOn <;> cases E.Q.postMetaOverwritten <;> cases bOk <;> cases prok <;>
+      (try simp [positionsOk_append, hbb, hup, hpr, hb, positionsOk, Io.pos]))
+
+end Nomt.Api.Pipe
+
+namespace Nomt.Api.Pipe
+open Nomt Nomt.Api
+variable {Node VH : Type} [DecidableEq Node] [DecidableEq VH]
+
+theorem storeCommit_positionsOk (E : Env) (hW : WorkWf E.W) (trim : Bool) (ws : Writes VH) (p : PSt Node VH) :
+    positionsOk (storeCommit E trim ws p).2.2 = true := by
+  have h := sync_positionsOk E hW trim ws p
+  unfold storeCommit
+  cases p.poisoned
+  · simp only [Bool.false_eq_true, if_false]
+    rcases hs : sync E trim ws p with ⟨ok, q, t⟩
+    rw [hs] at h
+    cases ok <;> simp_all [positionsOk, positionsOk_append]
+  · simp [positionsOk]
+
+theorem rbCommit_positionsOk (E : Env) (hW : WorkWf E.W) (d : Writes VH) (p : PSt Node VH) :
+    positionsOk (rbCommit E d p).2.2 = true := by
+  have h := runSeq_positionsOk E.F .rbAppend E.W.seg hW.seg
+  unfold rbCommit
+  simp only []
+  cases (runSeq E.F .rbAppend E.W.seg).ok <;> simp [positionsOk_append, h, positionsOk]
+
+theorem appendAndStore_positionsOk (E : Env) (hW : WorkWf E.W) (ws delta : Writes VH) (p : PSt Node VH) (t : List Step)
+    (ht : positionsOk t = true) : positionsOk (appendAndStore E ws delta p t).trace = true := by
+  unfold appendAndStore
+  cases p.mem.rollbackOn
+  · simp only [Bool.false_eq_true, if_false]
+    have := storeCommit_positionsOk E hW true ws p
+    simp [positionsOk_append, ht, this]
+  · simp only [if_true]
+    have h1 := rbCommit_positionsOk E hW delta p
+    rcases hr : rbCommit E delta p with ⟨ok, q, ta⟩
+    rw [hr] at h1
+    simp only at h1
+    cases ok
+    · cases E.Q.rbErrNoPoison <;> simp [positionsOk_append, ht, h1, positionsOk]
+    · have := storeCommit_positionsOk E hW true ws q
+      simp [positionsOk_append, ht, h1, this]
+
+theorem tryTail_positionsOk (E : Env) (hW : WorkWf E.W) (ws delta : Writes VH) (root : Node) (p : PSt Node VH)
+    (t : List Step) (ht : positionsOk t = true) : positionsOk (tryTail E ws delta root p t).trace = true := by
+  unfold tryTail rbCommitOpt
+  cases p.mem.rollbackOn
+  · simp only [Bool.false_eq_true, if_false]
+    have := storeCommit_positionsOk E hW true ws { p with mem := { p.mem with root := root, lastMarker := none } }
+    simp [positionsOk_append, ht, this, positionsOk]
+  · simp only [if_true]
+    have h1 := rbCommit_positionsOk E hW delta p
+    rcases hr : rbCommit E delta p with ⟨ok, q, ta⟩
+    rw [hr] at h1
+    simp only at h1
+    cases ok
+    · cases E.Q.rbErrNoPoison <;> simp [positionsOk_append, ht, h1, positionsOk]
+    · have := storeCommit_positionsOk E hW true ws { q with mem := { q.mem with root := root, lastMarker := none } }
+      simp [positionsOk_append, ht, h1, this, positionsOk]
+
+end Nomt.Api.Pipe
+
+namespace Nomt.Api.Pipe
+open Nomt Nomt.Api
+variable {Node VH : Type} [DecidableEq Node] [DecidableEq VH]
+
+theorem commitOvBody_positionsOk (E : Env) (hW : WorkWf E.W) (p : PSt Node VH) (oid : Nat) (o : Ov Node VH)
+    (t : List Step) (ht : positionsOk t = true) : positionsOk (commitOvBody E p oid o t).trace = true := by
+  unfold commitOvBody
+  simp only []
+  cases p.poisoned
+  · simp only [Bool.false_eq_true, if_false]
+    cases E.Q.markBeforeRootCheck
+    · simp only [Bool.false_eq_true, if_false]
+      split
+      · simp [positionsOk_append, ht, positionsOk]
+      · exact appendAndStore_positionsOk E hW _ _ _ _ (by simp [positionsOk_append, ht, positionsOk])
+    · simp only [if_true]
+      split
+      · simp [positionsOk_append, ht, positionsOk]
+      · exact appendAndStore_positionsOk E hW _ _ _ _ (by simp [positionsOk_append, ht, positionsOk])
+  · simp [positionsOk_append, ht, positionsOk]
+
+/-- **every I/O step of every pipeline trace sits where `Io.pos` says** (any fault set, any quirk, any state), provided the
+work lists hold labels of their own task — which `workOf` guarantees for any observed label sequence -/
+theorem runCall_positionsOk (H : Hasher Node VH) (E : Env) (hW : WorkWf E.W) (p : PSt Node VH) (c : Call) :
+    positionsOk (runCall H E p c).trace = true := by
+  cases c with
+  | commit fid =>
+    simp only [runCall, commitFinP]
+    cases takeFin p.mem fid with
+    | none => rfl
+    | some fm =>
+      obtain ⟨f, m1⟩ := fm
+      simp only []
+      cases p.poisoned
+      · simp only [Bool.false_eq_true, if_false]
+        split
+        · rfl
+        · exact appendAndStore_positionsOk E hW _ _ _ _ rfl
+      · rfl
+  | tryCommit fid =>
+    simp only [runCall, tryCommitFinP]
+    split
+    · rfl
+    · cases takeFin p.mem fid with
+      | none => rfl
+      | some fm =>
+        obtain ⟨f, m1⟩ := fm
+        simp only []
+        cases p.poisoned
+        · simp only [Bool.false_eq_true, if_false]
+          cases E.Q.rbBeforeRootCheck
+          · simp only [Bool.false_eq_true, if_false]
+            split
+            · rfl
+            · split
+              · rfl
+              · exact tryTail_positionsOk E hW _ _ _ _ _ rfl
+          · simp only [if_true]
+            split
+            · rfl
+            · unfold rbCommitOpt
+              cases m1.rollbackOn
+              · simp only [Bool.false_eq_true, if_false]
+                split
+                · rfl
+                · simp [positionsOk_append, storeCommit_positionsOk E hW, positionsOk]
+              · simp only [if_true]
+                generalize hr : rbCommit E f.delta _ = r
+                have h1 : positionsOk r.2.2 = true := by rw [← hr]; exact rbCommit_positionsOk E hW f.delta _
+                obtain ⟨ok, q, ta⟩ := r
+                simp only at h1
+                cases ok
+                · cases E.Q.rbErrNoPoison <;> simp [positionsOk_append, h1, positionsOk]
+                · simp only []
+                  split
+                  · simp [positionsOk_append, h1, positionsOk]
+                  · simp [positionsOk_append, h1, storeCommit_positionsOk E hW, positionsOk]
+        · rfl
+  | ocommit oid =>
+    simp only [runCall, commitOvP]
+    cases p.mem.ov? oid with
+    | none => rfl
+    | some o =>
+      simp only []
+      split
+      · rfl
+      · split
+        · rfl
+        · exact commitOvBody_positionsOk E hW p oid o _ rfl
+  | otryCommit oid =>
+    simp only [runCall, tryCommitOvP]
+    cases p.mem.ov? oid with
+    | none => rfl
+    | some o =>
+      simp only []
+      split
+      · rfl
+      · split
+        · rfl
+        · split
+          · rfl
+          · exact commitOvBody_positionsOk E hW p oid o _ rfl
+  | rollback n =>
+    simp only [runCall, rollbackP]
+    split
+    · rfl
+    · split
+      · rfl
+      · split
+        · rfl
+        · split
+          · rfl
+          · split
+            · rfl
+            · simp [positionsOk_append, storeCommit_positionsOk E hW, positionsOk]
+
+end Nomt.Api.Pipe
